@@ -1,6 +1,7 @@
 from __future__ import annotations
 
 from typing import TYPE_CHECKING
+from urllib.parse import urlparse
 
 from sdc11073.xml_types.addressing_types import HeaderInformationBlock
 from .subscriptionmgr_base import ActionBasedSubscription, SubscriptionsManagerBase
@@ -63,6 +64,16 @@ class ActionBasedSubscriptionsManager(SubscriptionsManagerBase):
         if filter_type.Dialect != self.supported_filter_dialect:
             raise ValueError(
                 f'Invalid filter dialect, got {filter_type.Dialect}, expect {self.supported_filter_dialect}')
+
+        # a subscription whose notifications (or end message) cannot be addressed must not be accepted:
+        # every later report would fail while it is sent
+        addresses = [subscribe_request.Delivery.NotifyTo.Address]
+        if subscribe_request.EndTo is not None and subscribe_request.EndTo.Address is not None:
+            addresses.append(subscribe_request.EndTo.Address)
+        for address in addresses:
+            url = urlparse(address) if address else None
+            if url is None or url.scheme not in ('http', 'https') or not url.netloc:
+                raise ValueError(f'Invalid NotifyTo / EndTo address {address!r}')
 
         accepted_encodings = CompressionHandler.parse_header(request_data.http_header.get('Accept-Encoding'))
         return self.subscription_cls(self, subscribe_request, accepted_encodings, self.base_urls,
